@@ -85,7 +85,7 @@ Proof. exact tagged_without_tag. Qed.
    and a `__typename` naming a possible type unless the catch-all variant exists. *)
 Theorem C03_checker_exact : forall s frags henv env other,
   (other = false -> forall n a b c tag vs, find_item n env = Some (ITagEnum a b c tag vs) -> forall v, In v vs -> v_other v = false) ->
-  forall fuel name t sels B, sel_need s henv env fuel name t sels = Some B ->
+  forall fuel name t sels B, sel_need s frags henv env fuel name t sels = Some B ->
     (forall F, deser henv F env (RNamed name) JNull = None) /\
     (forall F m fw, UK (JObj m) -> is_some (deser henv F env (RNamed name) (JObj m)) = true -> wpos s frags other fw t sels m = true) /\
     (forall F j, is_some (deser henv F env (RNamed name) j) = true ->
